@@ -154,7 +154,7 @@ class Spec:
         return v
 
     def key(self, S):
-        return (tuple(sorted(S.content)), tuple(sorted(S.snap)), canon(S.aud.reverseOps), canon(vars(S.base)))
+        return (tuple(sorted(S.content)), tuple(sorted(S.snap)), canon(vars(S.aud)), canon(vars(S.cg)))
 
     def model_key(self, S):
         return (tuple(sorted(S.content)), tuple(sorted(S.snap)), tuple(sorted(S.touched)))
